@@ -22,10 +22,11 @@ RULE = ("a systematic sweep (one nested configuration with 4 sub-files x single/
         "dump_using_format call} x {nothing, each target, all targets, a directory in the way} pre-existing), a deterministic list of "
         "special shapes (two sub-configs with one basename, a sub-file named like the main file, a save_path_content file "
         "saved onto itself / from elsewhere / whose source is gone, the last serialisation failing with every target "
-        "pre-existing, each form of the target path) plus seeded "
+        "pre-existing, an existing target x overwrite on/off x each of the 9 spellings of the target) plus seeded "
         "random configurations (0-4 sub-files of 4 kinds, nesting, dotted keys, colliding basenames, same-directory layout, "
         "save over the loaded file, json format, missing target directory, two simultaneous faults, 20% with the target path "
-        "given as ./x, ../out/x, dir//x or through a symlink); a case is "
+        "spelled as ./x, ../out/x, dir//x, through a symlink, ~/out/x, file://dir/x, or a Path_fc object whose cwd is not "
+        "the process cwd); a case is "
         "non-trivial when it has a sub-file, a fault or a pre-existing target; distinct = distinct "
         "(flags, declaration shape, faults, pre-existing entries, outcome)")
 TRUSTED = [
@@ -109,7 +110,14 @@ def mk_case(decl, multifile=True, overwrite=False, skipval=False, fmt="yaml", ma
             "faults": [list(f) for f in faults], "via": via}
 
 
-VIAS = ["plain", "dot", "dotdot", "slash", "link"]
+# how the target is spelled; the file meant is always <target dir>/<main>. The first five differ in the form of the
+# path string; the last four are spellings that Path resolves (expanduser, file:// scheme, a Path object with its own
+# cwd) but that do not name the file when handed to os.path.* as they are.
+VIAS = ["plain", "dot", "dotdot", "slash", "link", "tilde", "fileurl", "pathobj", "chdir"]
+VIA_SHOW = {"plain": "'<dir>/%s'", "dot": "'./%s'", "dotdot": "'../out/%s'", "slash": "'<dir>//%s'", "link": "'<symlink to dir>/%s'",
+            "tilde": "'~/out/%s' (HOME = parent of <dir>)", "fileurl": "'file://<dir>/%s'",
+            "pathobj": "Path_fc('%s', cwd=<dir>) with the process elsewhere",
+            "chdir": "Path_fc('%s') created inside <dir>, used after os.chdir away"}
 
 
 SWEEP_DECL = [
@@ -172,6 +180,15 @@ def sweep_special():
             for pre in ([], [["s2.yaml", "file", "old"]]):
                 for via in VIAS:
                     cases.append(mk_case(decl, True, overwrite, main="s2.yaml", pre=pre, via=via))
+    # an existing target, however it is spelled: refused without overwrite, replaced with it
+    plain_decl = [it_int("k", 3), it_any("anyv", "text")]
+    for via in VIAS:
+        for multifile in (True, False):
+            for overwrite in (False, True):
+                for decl in (plain_decl, clash_decls[1]):
+                    cases.append(mk_case(decl, multifile, overwrite, pre=[["main.yaml", "file", "my only copy\n"]], via=via))
+                cases.append(mk_case(plain_decl, multifile, overwrite, pre=[["main.yaml", "file", ""]], via=via))
+                cases.append(mk_case(plain_decl, multifile, overwrite, pre=[["main.yaml", "dir"]], via=via))
     # the form of the target path must not matter otherwise
     for via in VIAS[1:]:
         for multifile in (True, False):
@@ -384,7 +401,7 @@ def category(case, obs):
     changed = "unchanged" if obs["after"] == obs["before"] else "changed"
     return "%s/%s/%d subs/%s/%s/%s%s" % ("multi" if case["multifile"] else "single", "ow" if case["overwrite"] else "noow",
                                          min(len(obs["subs"]), 4), f, obs["res"], changed,
-                                         "/path as " + case["via"] if obs.get("alias") else "")
+                                         "/target as " + case["via"] if case.get("via", "plain") != "plain" else "")
 
 
 def describe(case, obs):
@@ -394,9 +411,8 @@ def describe(case, obs):
         return {n: ("<dir>" if c < 0 else t[c][:60]) for n, c in snap}
 
     return {
-        "call": "parser.save(cfg, %r, format=%r, skip_validation=%s, overwrite=%s, multifile=%s)%s" % (
-            {"plain": "<dir>/", "dot": "./", "dotdot": "../out/", "slash": "<dir>//", "link": "<symlink to dir>/"}[case.get("via", "plain")]
-            + case["main"], case["fmt"], case["skipval"], case["overwrite"], case["multifile"],
+        "call": "parser.save(cfg, %s, format=%r, skip_validation=%s, overwrite=%s, multifile=%s)%s" % (
+            VIA_SHOW[case.get("via", "plain")] % case["main"], case["fmt"], case["skipval"], case["overwrite"], case["multifile"],
             "" if case["dir_ok"] else " in a directory that does not exist"),
         "configuration": shape(case["decl"]),
         "layout": case["layout"],
